@@ -98,7 +98,7 @@ def generate(seed: int, config: str, tier: str) -> Dict[str, Any]:
     oplists = []
     failing_at: List[Optional[int]] = []
     for _ in range(rng.randint(1, 3)):
-        ops = gen_patch.gen_oplist(rng, prof, JSONPatch, base, rng.randint(1, 8), kinds)
+        ops = gen_patch.gen_oplist(rng, prof, JSONPatch, base, rng.randint(1, 12 if tier == "thorough" else 8), kinds)
         if not ops:
             ops = [{"op": "add", "path": "/a", "value": []}]
         k = None
@@ -109,7 +109,7 @@ def generate(seed: int, config: str, tier: str) -> Dict[str, Any]:
     clients = []
     for _ in range(rng.randint(1, 3)):
         script: List[List[Any]] = []
-        for _ in range(rng.randint(2, 14)):
+        for _ in range(rng.randint(2, 24 if tier == "thorough" else 14)):
             r = rng.random()
             L = rng.randrange(len(oplists))
             form = rng.choice(FORMS)
